@@ -43,6 +43,7 @@ type Exec struct {
 	closureOf  map[string]*SV
 	writes     map[string]bool // heap components written anywhere (for frame obligations)
 	imVal      types.Type      // value type of the intmap.Map instantiation in use
+	vacuous    []string        // calls whose assumed postconditions made a live path infeasible
 	paths      int
 	notes      []string
 	entryEnv   map[string]*SV // parameter bindings at entry
